@@ -248,13 +248,18 @@ def min_backward(grad, a, axis, keepdims):
 
 
 def squeeze_forward(a:np.ndarray, axis:'None | int | tuple'):
-    out = a
-    if axis is not None and not isinstance(axis, int):
-        axis = tuple(ax for ax in axis if a.shape[ax] == 1) # squeeze only the listed dims of size 1
-        return np.squeeze(a, axis) if len(axis) > 0 else out
-    can_apply = len(a.shape) > 0 and (axis is None or a.shape[axis] == 1)
-    if can_apply: out = np.squeeze(a, axis)
-    return out
+    if axis is None:
+        return np.squeeze(a)
+    ndim = max(a.ndim, 1) # a 0-d tensor accepts dims 0 and -1
+    dims = []
+    for ax in ((axis,) if isinstance(axis, int) else axis):
+        if not -ndim <= ax < ndim:
+            raise IndexError(f"Dimension out of range (expected to be in range of [{-ndim}, {ndim - 1}], but got {ax})")
+        dims.append(ax % ndim)
+    if len(set(dims)) != len(dims):
+        raise ValueError(f"dim appears multiple times in the list of dims: {axis}")
+    dims = tuple(ax for ax in dims if a.ndim > 0 and a.shape[ax] == 1) # squeeze only the listed dims of size 1
+    return np.squeeze(a, dims) if len(dims) > 0 else a
 
 def squeeze_backward(grad:np.ndarray, a_shape:tuple):
     return grad.reshape(a_shape)
